@@ -250,13 +250,13 @@ class Win:
 
     def __init__(self, base, lo, hi, xf=(), is_str=False):
         self.base = base
-        self.lo = iv(lo) if isinstance(lo, int) else lo
-        self.hi = iv(hi) if isinstance(hi, int) else hi
+        self.lo = iv(lo) if isinstance(lo, int) else z3.simplify(lo)
+        self.hi = iv(hi) if isinstance(hi, int) else z3.simplify(hi)
         self.xf = tuple(xf) if xf else ()
         self.is_str = is_str
 
     def length(self):
-        return self.hi - self.lo
+        return z3.simplify(self.hi - self.lo)
 
     def char_at(self, p):
         """code point at absolute position p"""
